@@ -473,7 +473,9 @@ def list_append(eng, args, kwargs, st, node):
                 return [(NONE, st)]
         if not isinstance(x, (VInt, VStr, VBool)) or x.ty != o.elem:
             raise Undecided('append of %r to list of %r' % (x, o.elem), node)
-        st.heap[xs.loc] = HList(Concat(o.seq, smt.Unit(x.t)), o.elem)
+        new = Concat(o.seq, smt.Unit(x.t))
+        eng.ctx.__dict__.setdefault('snoc', {})[new.s] = (o.seq, x.t)       # remembered: xs ++ [x] (quantifiers split on it)
+        st.heap[xs.loc] = HList(new, o.elem)
         return [(NONE, st)]
     raise Undecided('append', node)
 
@@ -703,7 +705,11 @@ def dict_get_m(eng, args, kwargs, st, node):
     d, key = args[0], args[1]
     default = args[2] if len(args) > 2 else NONE
     o = st.heap[d.loc]
-    if isinstance(key, VStr) and key.t.lit is not None:
+    if isinstance(o, HMap) and isinstance(key, VInt) and isinstance(default, VNone):
+        from .symexec import VOptSym
+        has = smt.mk('select', [o.present, key.t], BOOL)
+        return [(VOptSym(Not(has), wrap(smt.mk('select', [o.vals, key.t], sort_of(o.vty)), o.vty)), st)]
+    if isinstance(o, HDict) and isinstance(key, VStr) and key.t.lit is not None:
         return [(o.entries.get(key.t.lit[1], default), st)]
     raise Undecided('dict.get with symbolic key', node)
 
@@ -771,7 +777,98 @@ def m_set(eng, args, kwargs, st, node):
         return [(st.alloc(HSet(st.heap[v.loc].arr)), st)]     # a new set object with the same members
     if isinstance(v, (VBool, VInt)):
         return eng._safe_result(FALSE, NONE, TypeError, st, node)      # set(True): 'bool' object is not iterable
+    try:
+        seq, elem = eng.seq_of(v, st)
+    except Undecided:
+        seq = None
+    if seq is not None and elem[0] in ('int', 'str'):
+        return [(st.alloc(HSeqSet(seq, elem)), st)]       # the set of the elements of a sequence
     raise Undecided('set(%r)' % (v,), node)
+
+
+class HSeqSet(object):
+    """set(xs) of a symbolic sequence of ints / strs: kept as the sequence whose elements are its members."""
+    __slots__ = ('seq', 'elem')
+
+    def __init__(self, seq, elem):
+        self.seq = seq
+        self.elem = elem
+
+
+def _components(eng, seq):
+    """seq as a concatenation of known pieces: [('unit', x) | ('seq', t)] (from the registries kept by list + list and append)."""
+    cat = eng.ctx.__dict__.get('cat', {})
+    snoc = eng.ctx.__dict__.get('snoc', {})
+    if seq.s in cat:
+        out = []
+        for kind, t in cat[seq.s]:
+            out.extend(_components(eng, t) if kind == 'seq' else [(kind, t)])
+        return out
+    if seq.s in snoc:
+        pre, last = snoc[seq.s]
+        return _components(eng, pre) + [('unit', last)]
+    return [('seq', seq)]
+
+
+def _same_members(eng, st, r, seq, tag, ordered_ints):
+    """r and seq have the same elements, stated per known piece of seq with skolem functions (friendly to e-matching);
+    for a sorted result of ints also: the first / last item of r bound every member."""
+    comps = _components(eng, seq)
+    f = eng.ctx.fresh_name('%s_src' % tag)
+    eng.ctx.fun(f, ['Int'], 'Int')
+    i = smt.bound(eng.ctx, 'i', INT)
+    fi = eng.ctx.app(f, i)
+    first, last = At(r, IntV(0)), At(r, Sub(Len(r), IntV(1)))
+
+    def from_some_piece(x, fx):
+        alts = []
+        for kind, t in comps:
+            if kind == 'unit':
+                alts.append(Eq(x, t))
+            else:
+                alts.append(And(Le(IntV(0), fx), Lt(fx, Len(t)), Eq(At(t, fx), x)))
+        return Or(*alts)
+    st.assume(smt.ForAll([i], Implies(And(Le(IntV(0), i), Lt(i, Len(r))), from_some_piece(At(r, i), fi)),
+                         patterns=[[At(r, i)]]))
+    for at in (IntV(0), Sub(Len(r), IntV(1))):       # ground instances at both ends of r
+        st.assume(Implies(Gt(Len(r), IntV(0)), from_some_piece(At(r, at), eng.ctx.app(f, at))))
+    total = IntV(0)
+    for kind, t in comps:
+        if kind == 'unit':
+            g = eng.ctx.fresh('%s_at' % tag, INT)
+            st.assume(And(Le(IntV(0), g), Lt(g, Len(r)), Eq(At(r, g), t)))
+            if ordered_ints:
+                st.assume(And(Le(first, t), Le(t, last)))
+            total = Add(total, IntV(1))
+        else:
+            gname = eng.ctx.fresh_name('%s_dst' % tag)
+            eng.ctx.fun(gname, ['Int'], 'Int')
+            gi = eng.ctx.app(gname, i)
+            fact = And(Le(IntV(0), gi), Lt(gi, Len(r)), Eq(At(r, gi), At(t, i)))
+            if ordered_ints:
+                fact = And(fact, Le(first, At(t, i)), Le(At(t, i), last))
+            st.assume(smt.ForAll([i], Implies(And(Le(IntV(0), i), Lt(i, Len(t))), fact), patterns=[[At(t, i)]]))
+            total = Add(total, Len(t))
+    st.assume(Le(Len(r), total))
+    st.assume(Implies(Gt(total, IntV(0)), Gt(Len(r), IntV(0))))
+
+
+def seqset_as_list(eng, o, st, ordered):
+    """list(set(xs)) / sorted(set(xs)): a duplicate-free sequence with the members of xs; strictly increasing when sorted."""
+    r = eng.ctx.fresh('sorted_set' if ordered else 'set_items', o.seq.sort)
+    ordered_ints = ordered and o.elem[0] == 'int'
+    _same_members(eng, st, r, o.seq, 'sset' if ordered else 'lset', ordered_ints)
+    i = smt.bound(eng.ctx, 'i', INT)
+    j = smt.bound(eng.ctx, 'j', INT)
+    rng = And(Le(IntV(0), i), Lt(i, j), Lt(j, Len(r)))
+    if ordered_ints:
+        body = Lt(At(r, i), At(r, j))
+        eng.trusted_used.add('builtin:sorted(set(xs)) of ints (strictly increasing, same members as xs)')
+    else:
+        body = Ne(At(r, i), At(r, j))
+        eng.trusted_used.add('builtin:list(set(xs)) / sorted(set(xs)) (duplicate free, same members as xs, order unspecified)')
+    st.assume(smt.ForAll([i, j], Implies(rng, body), patterns=[[At(r, i), At(r, j)]]))
+    return st.alloc(HList(r, o.elem))
 
 
 # ----------------------------------------------------------------- builtins
@@ -1010,6 +1107,8 @@ def m_int(eng, args, kwargs, st, node):
 @func(sorted)
 def m_sorted(eng, args, kwargs, st, node):
     v = args[0]
+    if isinstance(v, VRef) and isinstance(st.heap.get(v.loc), HSeqSet) and not kwargs:
+        return [(seqset_as_list(eng, st.heap[v.loc], st, True), st)]
     items = eng.concrete_items(v, st)
     if items is not None and not items:
         return [(st.alloc(HPyList([])), st)]
@@ -1026,6 +1125,8 @@ def m_list(eng, args, kwargs, st, node):
         return [(st.alloc(HPyList([])), st)]
     v = args[0]
     from .executor import VRecList
+    if isinstance(v, VRef) and isinstance(st.heap.get(v.loc), HSeqSet):
+        return [(seqset_as_list(eng, st.heap[v.loc], st, False), st)]
     if isinstance(v, VRecList):
         return [(v, st)]        # a record list is immutable in the engine: list(xs) is xs
     items = eng.concrete_items(v, st)
